@@ -65,19 +65,27 @@ def load_limited_to(limited_to):
     return GeomCoverage(geom, srs, clip=True)
 
 
-def load_limited_to_all(*limited_tos):
+def load_limited_to_all(*limited_tos, **kw):
     """
     Load all given `limited_to` dicts (``None``/empty ones are ignored) and
     return the intersection as one clipping coverage, or ``None`` if there
     is no limit at all.
+
+    :param srs: SRS to intersect the geometries in (the SRS the coverage is
+        used with). Every geometry is transformed only once this way.
     """
+    srs = kw.get('srs')
     coverages = [load_limited_to(lt) for lt in limited_tos if lt]
     if not coverages:
         return None
-    result = coverages[0]
+    if len(coverages) == 1:
+        return coverages[0]
+    if srs is None:
+        srs = coverages[0].srs
+    result = coverages[0].transform_to(srs)
     for other in coverages[1:]:
-        geom = result.geom.intersection(other.transform_to(result.srs).geom)
-        result = GeomCoverage(geom, result.srs, clip=True)
+        geom = result.geom.intersection(other.transform_to(srs).geom)
+        result = GeomCoverage(geom, srs, clip=True)
     return result
 
 
